@@ -3,12 +3,15 @@
    bytes: on every byte string it returns a syntax tree or a located diagnostic; no branch of the model is undefined
    behaviour and no loop or recursion exhausts the fuel the model gives it ("terminates, no hang" for lexing and
    parsing; recursion depth is bounded by 6 * (number of tokens + 2) + 6).  Proofs: XFrontProofs.v.
-   NOT MODELLED, hence not proved here: CreateSymbols, ConstProp, OptimiseExpr, CodeGen, LowerDirectives,
+   ALSO PROVED (model XConstProp.v, tied by tools/c07.py to `xcmp --tree/--tree-opt`): CreateSymbols, ConstProp and
+   OptimiseExpr never reach an undefined-behaviour outcome on ANY syntax tree and end in a tree or one of four diagnostics.
+   NOT MODELLED, hence not proved here: CodeGen, LowerDirectives,
    OptimiseDirectives (tools/c09.py covers them by running the real code under ASan/UBSan/valgrind); the final
    assembly pass (hexasm::CodeGen) is covered by C10_total on the assembler model.  The full property is C09_full,
    stated for a model `compile` of the whole of Driver::run that does not exist yet. *)
 From Coq Require Import ZArith List String Bool.
 From HexVerif Require Import XAst XFront XFrontProofs.
+From HexVerif Require XConstProp XConstPropTotal.
 Import ListNotations.
 Local Open Scope Z_scope.
 
@@ -33,6 +36,20 @@ Theorem C09_reject_located_partial :
   forall src d, front src = Reject d <-> front_located src = Reject d.
 Proof. exact front_reject. Qed.
 Print Assumptions C09_reject_located_partial.
+
+(* the passes after parsing that the model covers (symbol creation incl. the redefinition check, constant propagation
+   with wrap-around folding and rejection of non-constant vals, expression rewriting): for EVERY syntax tree -- not
+   only well-defined programs -- no undefined behaviour (no signed overflow, no read of an unset val) and a definite
+   outcome: an annotated tree or a diagnostic.  Termination is by construction (structural recursion). *)
+Theorem C09_constprop_no_ub_partial : forall p : program,
+  match XConstProp.front p with XConstProp.CUB _ => False | _ => True end.
+Proof. exact XConstPropTotal.constprop_no_ub. Qed.
+Print Assumptions C09_constprop_no_ub_partial.
+
+Theorem C09_constprop_outcome_partial : forall p : program,
+  (exists q, XConstProp.front p = XConstProp.COk q) \/ (exists e, XConstProp.front p = XConstProp.CErr e).
+Proof. exact XConstPropTotal.front_outcome. Qed.
+Print Assumptions C09_constprop_outcome_partial.
 
 (* non-vacuity: both outcomes occur, with the tree / the diagnostic the real parser gives *)
 Example C09_accepts :
